@@ -141,6 +141,13 @@ def run(ctx: Ctx) -> None:
         outs = X.eval_callback("attr", mk)
         good = len(outs) == 1 and outs[0].kind == "return" and outs[0].value.get("name") == SStr([body])
         ctx.check(good, "T3", f"attr strips exactly the outer {q} pair", locf("attr"), "", f"attr(NAME {q}<body>{q}) stores {[o.value.get('name') if o.kind == 'return' else o.exc for o in outs]}")
+    for q in ('"', "'"):
+        def mk0(q=q):
+            return [models.token("UNQUOTED_STRING", SStr.atom("kw", lower_is="name")), models.token("DOUBLE_QUOTED_STRING", q + q)]
+
+        outs = X.eval_callback("attr", mk0)
+        good = len(outs) == 1 and outs[0].kind == "return" and outs[0].value.get("name") == ""
+        ctx.check(good, "T3", f"attr with the empty string {q}{q}", locf("attr"), "stored as ''", f"NAME {q}{q} is stored as {[o.value.get('name') if o.kind == 'return' else o.exc for o in outs]!r}")
     # key/value blocks
     for lab in ("metadata", "validation", "values", "connectionoptions"):
         for r in res(lab):
